@@ -13,6 +13,8 @@ ANCHORS = [("crates/turmoil/src/sim.rs", f) for f in ("crash", "bounce", "run_wi
     ("crates/turmoil/src/net/tcp/listener.rs", f) for f in ("drop", "accept")] + [
     ("crates/turmoil/src/net/tcp/stream.rs", f) for f in ("drop", "connect")]
 
+K_WRITER = "WriterBlockedFullWindow"
+
 HEADER = ("From TV.Lib Require Import Base.\nFrom TV.SimCore Require Import Model TokioClock Tables.\n"
           "Open Scope N_scope.\n")
 
@@ -182,12 +184,43 @@ def crash_oracle(case, obs):
                     sside = [p for p in before["hosts"][0]["streams"] if p[0] == port]
                     if est and sside:
                         e = FC.peer_end(obs, task, before["hosts"][1]["starts"] - 1)
-                        if e is None:
+                        if e is None and task == "C" and case["cfg"].get("tcp_capacity", 64) < 3:
+                            # C writes 3 records to a peer that never reads: with a window of 1 or 2 segments
+                            # it is blocked in write_all on flow-control credits when the server dies
+                            out.append(("event %d (%s n0): client task C is blocked in write_all on a full send window (tcp_capacity %d) "
+                                        "to the crashed server and is never woken by its reset" % (k, name, case["cfg"].get("tcp_capacity")), K_WRITER))
+                        elif e is None:
                             out.append(("event %d (%s n0): client task %s was connected to port %d and is still blocked at the end of the run" % (k, name, task, port), None))
                         elif e[2] > k and steps_between(evs, k, e[2]) > slack:
                             out.append(("event %d (%s n0): client task %s was unblocked only %d steps later" % (k, name, task, steps_between(evs, k, e[2])), None))
                         elif e[2] > k and e[0] not in ("eof", "UnexpectedEof", "ConnectionReset", "BrokenPipe"):
                             out.append(("event %d (%s n0): client task %s ended with %s" % (k, name, task, e[0]), None))
+                # the burst port: both clients (peek + read_exact, plain reads) must reach the end of
+                # their stream once they keep reading
+                cap = case["cfg"].get("tcp_capacity", 64)
+                cinc_b = before["hosts"][1]["starts"] - 1
+                for task in ("G", "H"):
+                    conn = [x for x in log if x[0] == 1 and x[1] == cinc_b and x[2] == task and x[3] == "connect" and x[4] == "ok" and x[6] < k]
+                    if not conn:
+                        continue
+                    lp = conn[0][5]
+                    if [9004, 1, lp] not in before["hosts"][0]["streams"] or [lp, 0, 9004] not in before["hosts"][1]["streams"]:
+                        continue
+                    drain = [x for x in log if x[0] == 1 and x[1] == cinc_b and x[2] == task and x[3] == "drain"]
+                    end = [x for x in log if x[0] == 1 and x[1] == cinc_b and x[2] == task and x[3] == "end"]
+                    if not drain:
+                        continue
+                    start = max(k, drain[0][6])
+                    after_start = steps_between(evs, start, nev - 1)
+                    if not end and after_start > slack + 2:
+                        out.append(("event %d (%s n0): client task %s (%s) drains its stream to the crashed server since event %d and is still "
+                                    "blocked %d steps later at the end of the run (tcp_capacity %d)" % (
+                                        k, name, task, "peek + read_exact" if task == "G" else "plain reads", drain[0][6], after_start, cap), None))
+                    elif end and end[0][6] > start and steps_between(evs, start, end[0][6]) > slack + 2:
+                        out.append(("event %d (%s n0): client task %s reached the end of its stream only %d steps after it could" % (
+                            k, name, task, steps_between(evs, start, end[0][6])), None))
+                    elif end and end[0][4] not in ("eof", "UnexpectedEof", "ConnectionReset", "BrokenPipe"):
+                        out.append(("event %d (%s n0): client task %s ended with %s" % (k, name, task, end[0][4]), None))
                 # connects queued at the listener that never accepts
                 cinc = before["hosts"][1]["starts"] - 1
                 for e in log:
@@ -419,6 +452,8 @@ class Spec(PropSpec):
             net += FC.crash_points(tick, lat, who)
         if quick:
             net = rng.sample(net, 150)
+        bp = FC.burst_points()
+        net += rng.sample(bp, 120) if quick else bp
         mcp = FC.multicast_points()
         net += rng.sample(mcp, 110) if quick else mcp
         net += [FC.gen_random(rng) for _ in range(60 if quick else 800)]
